@@ -604,7 +604,7 @@ def run_c14(tier, seed):
             cfg = base_cfg(rng, False, 'bulk', policy=rng.choice(['lrs', 'lru']))
             cfg.update(kind=kind, busy_budget=1, cull=0, limit=4096, now=3)
             prog = {1: [op('lock'), op('unlock')], 2: [op('tick', n=2), o, op('len')]}
-            jobs_dfs.append((cfg, prog, 2, 60 if tier == 'quick' else 300, seed, tid))
+            jobs_dfs.append((cfg, prog, 2, (260 if o['op'] == 'cull' else 60) if tier == 'quick' else 600, seed, tid))
             tid += 1000
     design_level(out, 'C14', tier)
     sch = tlc_schedules('lock', tier, seed)
